@@ -279,11 +279,90 @@ def coq_str(s):
     return '"' + s.replace('"', '""') + '"'
 
 
+def scan_shared(infos, raw):
+    """one record per shared-state / ambient-input construct, anywhere in the file (nested inline modules,
+    feature-gated items and fn-local statics included: the scan is purely lexical)"""
+    SHARED = [
+        ('static_mut', r"\bstatic\s+mut\b"),
+        ('static', r"\bstatic\s+(?!mut\b)\w+\s*:"),
+        ('thread_local', r"\bthread_local\s*!"),
+        ('Cell', r"\b(?:Cell|UnsafeCell|OnceCell|LazyCell)\s*(?:<|::)"),
+        ('RefCell', r"\bRefCell\s*(?:<|::)"),
+        ('Mutex', r"\bMutex\s*(?:<|::)"),
+        ('RwLock', r"\bRwLock\s*(?:<|::)"),
+        ('Atomic', r"\bAtomic(?:Bool|Usize|Isize|U8|U16|U32|U64|I8|I16|I32|I64|Ptr)\b"),
+        ('Lazy', r"\b(?:Lazy|LazyLock|OnceLock|lazy_static|Once)\s*(?:<|::|!)"),
+        ('Rc', r"\bRc\s*(?:<|::)"),
+        ('unsafe', r"\bunsafe\b"),
+        ('raw_ptr', r"\*\s*(?:const|mut)\s+\w|\bas_ptr\s*\(|\baddr_of|\{:p\}|\bas\s+usize\s*\)?\s*//ptr"),
+        ('ptr_identity', r"\bptr_eq\s*\(|\bptr::eq\s*\("),
+        ('env', r"\bstd::env\b|\benv::(?:var|vars|args|current_dir)\b|\benv!\s*\(|\boption_env!\s*\("),
+        ('time', r"\bstd::time\b|\bInstant::|\bSystemTime::"),
+        ('thread', r"\bstd::thread\b|\bthread::spawn\b|\brayon\b|\bpar_iter\b"),
+        ('random', r"\bRandomState\b|\bgetrandom\b|\brand::|\bfastrand\b|\bthread_rng\b"),
+        ('read_dir', r"\bread_dir\s*\("),
+        ('process', r"\bstd::process\b|\bprocess::(?:exit|abort|id)\b"),
+    ]
+    shared_sites = []
+    for fi in infos:
+        for kind, pat in SHARED:
+            for m in re.finditer(pat, fi.code):
+                f = fi.enclosing_fn(m.start())
+                ls = fi.code.rfind('\n', 0, m.start()) + 1
+                le = fi.code.find('\n', m.start())
+                text = raw[fi.rel][ls:le if le >= 0 else None]
+                # `static X: T = ..` : classify immutable statics of plain data separately
+                k = kind
+                if kind == 'static':
+                    decl = fi.code[m.start():fi.code.find('=', m.start())]
+                    if re.search(r"Cell|Mutex|RwLock|Atomic|Lazy|Once|\bmut\b", decl):
+                        k = 'static_interior'
+                shared_sites.append((fi.rel, f[0] if f else '', k, text, fi.line(m.start())))
+    return shared_sites
+
+
+SELFTEST_SRC = """
+#[cfg(feature = "raster-images")]
+mod outer {
+    pub mod inner {
+        use std::sync::Mutex;
+        /// doc comment mentioning static FOO: Mutex<u8>
+        static CACHE: Mutex<Vec<(u64, Vec<u8>)>> = Mutex::new(Vec::new());
+        thread_local! { static LOCAL: std::cell::Cell<u32> = std::cell::Cell::new(0); }
+        fn f() -> usize {
+            static COUNTER: std::sync::atomic::AtomicUsize = std::sync::atomic::AtomicUsize::new(0);
+            static ONCE: std::sync::OnceLock<u32> = std::sync::OnceLock::new();
+            let s = "static NOT_CODE: Mutex<u8>";
+            COUNTER.fetch_add(1, std::sync::atomic::Ordering::Relaxed)
+        }
+        static TABLE: &[u8] = b"ok";
+        static LOCK: std::sync::RwLock<u8> = std::sync::RwLock::new(0);
+    }
+}
+"""
+
+
+def scanner_selftest():
+    """The scanner must see statics / thread_local / Mutex / RwLock / atomics / OnceLock inside nested inline modules,
+    feature-gated code and fn bodies, and must not see them in comments or string literals."""
+    code = strip_verif_cfg(strip_code(SELFTEST_SRC))
+    fi = index_file('selftest.rs', code)
+    sites = scan_shared([fi], {'selftest.rs': SELFTEST_SRC})
+    kinds = sorted(k for _, _, k, _, _ in sites)
+    want = {'static_interior': 5, 'static': 1, 'thread_local': 1, 'Mutex': 2, 'RwLock': 2, 'Atomic': 2, 'Lazy': 2, 'Cell': 2}
+    got = {}
+    for k in kinds:
+        got[k] = got.get(k, 0) + 1
+    ok = all(got.get(k, 0) == v for k, v in want.items()) and set(got) <= set(want)
+    return ok, got
+
+
 def generate(api):
-    try:
-        _generate(api)
-    except (api.Unsupported, OSError, ValueError, IndexError, KeyError) as e:
-        api.broken('sites', 'c06', PROPS, e)
+    for mode in ('lib', 'bin'):
+        try:
+            _generate(api, mode)
+        except (api.Unsupported, OSError, ValueError, IndexError, KeyError) as e:
+            api.broken('sites', 'c06-' + mode, PROPS, e)
 
 
 def lib_files(api):
@@ -299,7 +378,12 @@ def lib_files(api):
     return out
 
 
-def _generate(api):
+BIN_FILES = ('crates/usvg/src/main.rs', 'crates/resvg/src/main.rs')
+
+
+def _generate(api, mode='lib'):
+    """mode 'lib': the library sources -> Gen/C06Sites.v;  mode 'bin': the two command-line front ends
+    (the property's "separate processes" clause covers the shipped binaries) -> Gen/C06BinSites.v"""
     files = lib_files(api)
     if len(files) < 40:
         raise api.Unsupported("library sources not found (%d files)" % len(files))
@@ -308,9 +392,11 @@ def _generate(api):
     cfg_mods = set()
     raw = {}
     for rel in files:
-        if rel in ('crates/usvg/src/main.rs', 'crates/resvg/src/main.rs'):
+        if (rel in BIN_FILES) != (mode == 'bin'):
             continue
         raw[rel] = api.rd(rel)
+    if mode == 'bin' and len(raw) != 2:
+        raise api.Unsupported("main.rs of resvg / usvg not found")
     # modules declared under #[cfg(resvg_verif)] (file modules): excluded, the guard itself is checked
     for rel, src in raw.items():
         for m in re.finditer(r"#\[cfg\(resvg_verif\)\]\s*(?:pub\s+)?mod\s+(\w+)\s*;", strip_code(src)):
@@ -356,7 +442,7 @@ def _generate(api):
         for f, t in fs.items():
             if t[0] == 'hash':
                 hash_fields.setdefault(f, []).append(s)
-    if not hash_fields:
+    if not hash_fields and mode == 'lib':
         raise api.Unsupported("no HashMap/HashSet typed struct field found (anchor `Cache` lost?)")
 
     # fns returning some type: name -> core type (for `let x = f(..)` / `Type::f(..)`)
@@ -508,43 +594,7 @@ def _generate(api):
             f = fi.enclosing_fn(m.start())
             ctor_sites.append((fi.rel, f[0] if f else '', m.group(1), m.group(2), fi.line(m.start())))
 
-    # ---------------------------------------------------------------- shared state / ambient inputs
-    SHARED = [
-        ('static_mut', r"\bstatic\s+mut\b"),
-        ('static', r"\bstatic\s+(?!mut\b)\w+\s*:"),
-        ('thread_local', r"\bthread_local\s*!"),
-        ('Cell', r"\b(?:Cell|UnsafeCell|OnceCell|LazyCell)\s*(?:<|::)"),
-        ('RefCell', r"\bRefCell\s*(?:<|::)"),
-        ('Mutex', r"\bMutex\s*(?:<|::)"),
-        ('RwLock', r"\bRwLock\s*(?:<|::)"),
-        ('Atomic', r"\bAtomic(?:Bool|Usize|Isize|U8|U16|U32|U64|I8|I16|I32|I64|Ptr)\b"),
-        ('Lazy', r"\b(?:Lazy|LazyLock|OnceLock|lazy_static|Once)\s*(?:<|::|!)"),
-        ('Rc', r"\bRc\s*(?:<|::)"),
-        ('unsafe', r"\bunsafe\b"),
-        ('raw_ptr', r"\*\s*(?:const|mut)\s+\w|\bas_ptr\s*\(|\baddr_of|\{:p\}|\bas\s+usize\s*\)?\s*//ptr"),
-        ('ptr_identity', r"\bptr_eq\s*\(|\bptr::eq\s*\("),
-        ('env', r"\bstd::env\b|\benv::(?:var|vars|args|current_dir)\b|\benv!\s*\(|\boption_env!\s*\("),
-        ('time', r"\bstd::time\b|\bInstant::|\bSystemTime::"),
-        ('thread', r"\bstd::thread\b|\bthread::spawn\b|\brayon\b|\bpar_iter\b"),
-        ('random', r"\bRandomState\b|\bgetrandom\b|\brand::|\bfastrand\b|\bthread_rng\b"),
-        ('read_dir', r"\bread_dir\s*\("),
-        ('process', r"\bstd::process\b|\bprocess::(?:exit|abort|id)\b"),
-    ]
-    shared_sites = []
-    for fi in infos:
-        for kind, pat in SHARED:
-            for m in re.finditer(pat, fi.code):
-                f = fi.enclosing_fn(m.start())
-                ls = fi.code.rfind('\n', 0, m.start()) + 1
-                le = fi.code.find('\n', m.start())
-                text = raw[fi.rel][ls:le if le >= 0 else None]
-                # `static X: T = ..` : classify immutable statics of plain data separately
-                k = kind
-                if kind == 'static':
-                    decl = fi.code[m.start():fi.code.find('=', m.start())]
-                    if re.search(r"Cell|Mutex|RwLock|Atomic|Lazy|Once|\bmut\b", decl):
-                        k = 'static_interior'
-                shared_sites.append((fi.rel, f[0] if f else '', k, text, fi.line(m.start())))
+    shared_sites = scan_shared(infos, raw)
 
     # ---------------------------------------------------------------- hashers
     hasher_sites = []
@@ -555,6 +605,64 @@ def _generate(api):
                 hasher_sites.append((fi.rel, f[0] if f else '', m.group(1), m.group(2), fi.line(m.start())))
             else:
                 hasher_sites.append((fi.rel, f[0] if f else '', m.group(3), 'mention', fi.line(m.start())))
+    # ---------------------------------------------------------------- every mention of a hash type is accounted for
+    mentions = []   # (file, kind, text, line)
+    ctor_lines = set((a, ln) for a, _, _, _, ln in ctor_sites)
+    name_re = re.compile(r"\b(%s)\b" % '|'.join(map(re.escape, hash_names)))
+    for fi in infos:
+        lines = fi.code.split('\n')
+        rawlines = raw[fi.rel].split('\n')
+        for ln0, text in enumerate(lines):
+            if not name_re.search(text):
+                continue
+            ln = ln0 + 1
+            t = text.strip()
+            if re.match(r"(pub\s+)?use\b", t):
+                kind = 'use'
+            elif re.match(r"(pub(\([^)]*\))?\s+)?type\s+\w+", t):
+                kind = 'alias'
+            elif re.search(r"->[^{;]*\b(%s)\b" % '|'.join(map(re.escape, hash_names)), t):
+                kind = 'fn_result'
+            elif re.search(r"\blet\s+(mut\s+)?\w+\s*:\s*[^=]*\b(%s)\b" % '|'.join(map(re.escape, hash_names)), t):
+                kind = 'let_annot'
+            elif re.match(r"(pub(\([^)]*\))?\s+)?(mut\s+)?\w+\s*:\s*&?\s*('\w+\s+)?(mut\s+)?(std::collections::)?(%s)\b[^=]*,?$"
+                          % '|'.join(map(re.escape, hash_names)), t):
+                f = fi.enclosing_fn(fi.line_starts[ln0])
+                kind = 'param' if (f and fi.line_starts[ln0] < f[2]) else 'field'
+            elif (fi.rel, ln) in ctor_lines:
+                kind = 'ctor'
+            else:
+                kind = 'other'
+            mentions.append((fi.rel, kind, rawlines[ln0].strip(), ln))
+
+
+    if mode == 'bin':
+        Lb = [api.HEADER,
+              "From Coq Require Import String ZArith List Bool.\nFrom RV Require Import Gen.C06Sites.\nImport ListNotations.\nLocal Open Scope string_scope.\n"]
+
+        def emit_b(name, ty, items):
+            Lb.append("Definition %s : list %s := [%s]." % (name, ty, ("\n  " + ";\n  ".join(items) + "\n") if items else ""))
+            Lb.append("")
+        emit_b('c06_bin_scanned_files', 'string', [coq_str(fi.rel) for fi in infos])
+        emit_b('c06_bin_hash_sites', 'hsite',
+               ["{| hs_file := %s; hs_fn := %s; hs_owner := %s; hs_name := %s; hs_method := %s; hs_line := %d |}"
+                % (coq_str(a_), coq_str(b_), coq_str(c_), coq_str(d_), coq_str(e_), ln) for a_, b_, c_, d_, e_, ln in hash_sites])
+        emit_b('c06_bin_hash_ctor_sites', 'hsite',
+               ["{| hs_file := %s; hs_fn := %s; hs_owner := %s; hs_name := %s; hs_method := %s; hs_line := %d |}"
+                % (coq_str(a_), coq_str(b_), coq_str('ctor'), coq_str(c_), coq_str(d_), ln) for a_, b_, c_, d_, ln in ctor_sites])
+        emit_b('c06_bin_shared_sites', 'ssite',
+               ["{| ss_file := %s; ss_fn := %s; ss_kind := %s; ss_text := %s; ss_line := %d |}"
+                % (coq_str(a_), coq_str(b_), coq_str(c_), coq_str(d_[:160]), ln) for a_, b_, c_, d_, ln in shared_sites])
+        emit_b('c06_bin_hasher_sites', 'hasher_site',
+               ["{| hh_file := %s; hh_fn := %s; hh_type := %s; hh_method := %s; hh_line := %d |}"
+                % (coq_str(a_), coq_str(b_), coq_str(c_), coq_str(d_), ln) for a_, b_, c_, d_, ln in hasher_sites])
+        emit_b('c06_bin_hash_mentions', 'ssite',
+               ["{| ss_file := %s; ss_fn := %s; ss_kind := %s; ss_text := %s; ss_line := %d |}"
+                % (coq_str(a_), coq_str(''), coq_str(k_), coq_str(t_[:160]), ln) for a_, k_, t_, ln in mentions])
+        api.write_gen('C06BinSites.v', "\n".join(Lb))
+        api.ok('tables', 'c06_bin_sites', hash_sites=len(hash_sites), shared_sites=len(shared_sites), files=len(infos))
+        return
+
     # which hasher feeds the generated-id check: `fn string_hash` must exist and build a DefaultHasher
     conv = 'crates/usvg/src/parser/converter.rs'
     cfi = [fi for fi in infos if fi.rel == conv]
@@ -622,36 +730,6 @@ def _generate(api):
         inits.append((m.group(1), int(v) if re.match(r"^\d+$", v) else -1))
     idx_fields = [f for f in structs.get('Cache', {}) if f.endswith('_index')]
 
-    # ---------------------------------------------------------------- every mention of a hash type is accounted for
-    mentions = []   # (file, kind, text, line)
-    ctor_lines = set((a, ln) for a, _, _, _, ln in ctor_sites)
-    name_re = re.compile(r"\b(%s)\b" % '|'.join(map(re.escape, hash_names)))
-    for fi in infos:
-        lines = fi.code.split('\n')
-        rawlines = raw[fi.rel].split('\n')
-        for ln0, text in enumerate(lines):
-            if not name_re.search(text):
-                continue
-            ln = ln0 + 1
-            t = text.strip()
-            if re.match(r"(pub\s+)?use\b", t):
-                kind = 'use'
-            elif re.match(r"(pub(\([^)]*\))?\s+)?type\s+\w+", t):
-                kind = 'alias'
-            elif re.search(r"->[^{;]*\b(%s)\b" % '|'.join(map(re.escape, hash_names)), t):
-                kind = 'fn_result'
-            elif re.search(r"\blet\s+(mut\s+)?\w+\s*:\s*[^=]*\b(%s)\b" % '|'.join(map(re.escape, hash_names)), t):
-                kind = 'let_annot'
-            elif re.match(r"(pub(\([^)]*\))?\s+)?(mut\s+)?\w+\s*:\s*&?\s*('\w+\s+)?(mut\s+)?(std::collections::)?(%s)\b[^=]*,?$"
-                          % '|'.join(map(re.escape, hash_names)), t):
-                f = fi.enclosing_fn(fi.line_starts[ln0])
-                kind = 'param' if (f and fi.line_starts[ln0] < f[2]) else 'field'
-            elif (fi.rel, ln) in ctor_lines:
-                kind = 'ctor'
-            else:
-                kind = 'other'
-            mentions.append((fi.rel, kind, rawlines[ln0].strip(), ln))
-
     # ---------------------------------------------------------------- emit
     L = [api.HEADER,
          "From Coq Require Import String ZArith List Bool.\nImport ListNotations.\nLocal Open Scope string_scope.\n",
@@ -696,6 +774,9 @@ def _generate(api):
                % (coq_str(a), coq_str(b), coq_str(c), 'true' if d else 'false') for a, b, c, d in gen_fns])
     emit_list('c06_counter_inits', '(string * Z)', ["(%s, (%d)%%Z)" % (coq_str(a), v) for a, v in inits])
     emit_list('c06_counter_fields', 'string', [coq_str(f) for f in sorted(idx_fields)])
+    st_ok, st_got = scanner_selftest()
+    L.append("(* scanner self-test on a synthetic source with statics in nested inline, feature-gated modules and fn bodies: %s *)" % sorted(st_got.items()))
+    L.append("Definition c06_scanner_selftest : bool := %s.\n" % ('true' if st_ok else 'false'))
     api.write_gen('C06Sites.v', "\n".join(L))
     api.ok('tables', 'c06_sites', hash_sites=len(hash_sites), shared_sites=len(shared_sites),
            hasher_sites=len(hasher_sites), files=len(infos), unresolved=n_unresolved,
